@@ -53,7 +53,19 @@ func viewCore(c *Chain, ctx sdk.Context) (v coreView) {
 	for _, p := range []byte{dogfoodtypes.OptOutsToFinishBytePrefix, dogfoodtypes.ConsensusAddrsToPruneBytePrefix, dogfoodtypes.UnbondingReleaseMaturityBytePrefix} {
 		it := sdk.KVStorePrefixIterator(st, []byte{p})
 		for ; it.Valid(); it.Next() {
-			v.qs = append(v.qs, fmt.Sprintf("%d %d %x", p, sdk.BigEndianToUint64(it.Key()[1:]), sha8(it.Value())))
+			line := fmt.Sprintf("%d %d %x", p, sdk.BigEndianToUint64(it.Key()[1:]), sha8(it.Value()))
+			if p == dogfoodtypes.UnbondingReleaseMaturityBytePrefix {
+				// the record ids a maturity entry lists: the model rebuilds the hold counts from them
+				var keys dogfoodtypes.UndelegationRecordKeys
+				if err := c.App.AppCodec().Unmarshal(it.Value(), &keys); err == nil && len(keys.GetList()) > 0 {
+					var ids []string
+					for _, k := range keys.GetList() {
+						ids = append(ids, fmt.Sprintf("%x", sha8(k)))
+					}
+					line += " " + strings.Join(ids, "+")
+				}
+			}
+			v.qs = append(v.qs, line)
 		}
 		it.Close()
 	}
@@ -89,7 +101,12 @@ func consHex(keyHex string) string {
 }
 
 func (v coreView) obs() string {
-	return fmt.Sprintf("und=[%s] q=[%s] rev=[%s]", strings.Join(v.unds, ","), strings.Join(v.qs, ","), strings.Join(v.rev, ","))
+	qs := make([]string, len(v.qs))
+	for i, q := range v.qs {
+		f := strings.Fields(q)
+		qs[i] = strings.Join(f[:3], " ") // prefix epoch digest (the record ids are an input of the model only)
+	}
+	return fmt.Sprintf("und=[%s] q=[%s] rev=[%s]", strings.Join(v.unds, ","), strings.Join(qs, ","), strings.Join(v.rev, ","))
 }
 
 func (w *genWorld) emitCore(v coreView) {
@@ -117,8 +134,8 @@ var reUpdateTime = regexp.MustCompile(`"update_time":"[^"]*"`)
 
 // whitelisted store prefixes per module: known gaps, each demonstrated by the directed scenario under its own sig
 var knownGapPrefixes = map[string]map[byte]string{
-	"delegation":      {0x06: "F-18b hold counts"},
-	"dogfood":         {0x05: "F-18a prune queue", 0x06: "F-18a maturity queue", 0x0d: "F-18a maturity epoch index", 0x0c: "historical info (ephemeral)", 0x0f: "validator updates (ephemeral)"},
+	// F-18a (dogfood 0x05/0x06/0x0d) and F-18b (delegation 0x06) are repaired: no longer whitelisted
+	"dogfood":         {0x0c: "historical info (ephemeral)", 0x0f: "validator updates (ephemeral)"},
 	"operator":        {0x0a: "F-18c reverse lookup of replaced keys", 0x01: "F-18g commission update_time"},
 	"oracle":          {0x4b: "F-18f oracle nonces"},
 	"feedistribution": {0x00: "F-18e", 0x02: "F-18e", 0x03: "F-18e", 0x66: "F-18e", 0x01: "F-18e", 0x04: "F-18e", 0x05: "F-18e", 0x06: "F-18e", 0x07: "F-18e"},
@@ -144,11 +161,9 @@ func (w *genWorld) check(res roundTripResult, v1, v2 coreView, directed bool) {
 	env.Eval("C18.validate")
 	for _, m := range sortedKeys(res.validateErr) {
 		e := res.validateErr[m]
-		if m == "delegation" && strings.Contains(e, "TxHash isn't a hex string") {
-			env.Outcome("gap:F-18d")
-			if directed {
-				env.Violate("C18.validate", "validate:delegation-txhash", "the delegation module's own export fails GenesisState.Validate as soon as an undelegation is pending: "+e, w.hist)
-			}
+		if m == "delegation" && strings.Contains(e, "TxHash isn't a") {
+			// F-18d (repaired): kept under its own sig so that a re-introduction is reported as such
+			env.Violate("C18.validate", "validate:delegation-txhash", "the delegation module's own export fails GenesisState.Validate as soon as an undelegation is pending: "+e, w.hist)
 			continue
 		}
 		env.Violate("C18.validate", "validate:"+m, "exported "+m+" genesis fails Validate: "+e, w.hist)
@@ -231,11 +246,13 @@ func (w *genWorld) check(res roundTripResult, v1, v2 coreView, directed bool) {
 	}
 	env.Eval("C18.behaviour")
 	for _, d := range res.contDiff {
-		if strings.Contains(d, "core state differs") || strings.Contains(d, "released") {
-			env.Outcome("gap:behaviour")
-			if directed && strings.Contains(d, "released") {
-				env.Violate("C18.behaviour", "early-release", d, w.hist)
-			}
+		if strings.Contains(d, "released") {
+			// F-18b (repaired): kept under its own sig
+			env.Violate("C18.behaviour", "early-release", d, w.hist)
+			continue
+		}
+		if strings.Contains(d, "core state differs") && len(v1.rev) > len(v1.cur) {
+			env.Outcome("gap:F-18h:behaviour") // validator key of a replaced key differs (F-18h), nothing else may
 			continue
 		}
 		if len(v1.rev) > len(v1.cur) && strings.Contains(d, "validator") {
